@@ -83,6 +83,11 @@ package gcsemu
 //@   requires maxResults >= 1
 //@   modifies ghost(jsonBodies)
 //@   ensures jsonBodies == old(jsonBodies) + 1
+// completeness, per skipped name (the closure announces each skip through dbgWalk): a name is skipped as "already
+// returned" only if it is <= the cursor the caller passed in, and as "outside the prefix" only if it does not carry the
+// prefix the caller passed in
+//@   callsite dbgWalk requires arg0 == "%q <= cursor=%q skipping" ==> filename <= old(cursor)
+//@   callsite dbgWalk requires arg0 == "%q < prefix=%q skipping" ==> !hasPrefix(filename, old(prefix))
 //@   callback $2 invariant 0 <= count && count <= maxResults
 //@   callback $2 invariant len(found) + len(prefixes) <= count
 //@   callback $2 invariant moreResults ==> count == maxResults
